@@ -13,8 +13,14 @@ Pointer theorems are corollaries of C04 (the offset points at the field inside t
 encoding is at `tx_offset`). `At mem p x` : `mem = pre ++ x ++ post`, `pre.length = p`.
 
 The transaction "as placed in VM memory" is the prepared one (`init_inner` calls `prepare_sign`): `vm.tx.val`.
+The real object additionally carries the metadata cache `precompute` computed BEFORE that preparation; the model reads
+the prepared value without a cache. `prepare_sign_preserves_sizes`, `prepared_offsets_eq_original` and
+`vm_object_offsets_eq_model` (section "the prepared transaction and the stale cache") prove that this is the same:
+the preparation `init_inner` performs keeps the witnesses, assigns defaults to fixed-size fields only, and so preserves
+every size and every offset.
 -/
 import FuelVerif.Lemmas.GtfWitness
+import FuelVerif.Lemmas.GtfPrepared
 namespace FuelVerif.C05
 open FuelVerif FuelVerif.Canonical FuelVerif.Offsets FuelVerif.TxId FuelVerif.Gtf
 open FuelVerif.Canonical.TxDesc (env)
@@ -45,6 +51,60 @@ theorem memory_after_init (k : Kind) (hk : k.chargeable = true) (v : Val) (hv : 
     At vm.mem 0 id ∧ At vm.mem 32 baseAsset ∧ At vm.mem (vm.txOffset - 8) (natBE 8 (size env k.desc vm.tx.val)) ∧
     At vm.mem vm.txOffset (encode env k.desc vm.tx.val) :=
   initVm_layout k hk v hv maxInputs chainId gasPrice context id baseAsset balances hid hb hbal vm h
+
+/-! ### the prepared transaction and the stale cache -/
+
+/-- complete check over the regenerated tables (`Gen/PrepareSign.lean`, `Gen/Canonical.lean`): for every executable kind the
+`prepare_sign` of `init_inner` assigns defaults to fixed-size fields only and clears nothing that is on the wire (the
+witnesses are KEPT — `init_inner` does not call `witnesses_mut().clear()`); the id mask of C03, which does clear the
+witnesses, would not pass -/
+theorem vm_masks_size_safe :
+    Kind.all.all (fun k => !k.chargeable || sizeSafe okCustom (vmMask k) k.desc) = true ∧
+    sizeSafe okCustom (maskOf .script) Kind.script.desc = false :=
+  ⟨vmMasks_sizeSafe, idMask_not_sizeSafe⟩
+
+/-- **`prepare_sign` preserves sizes**: the prepared transaction has the static, dynamic and total size of the original
+(so the size word `init_inner` pushes and the `TxLength` selector are those of the transaction that was checked) -/
+theorem prepare_sign_preserves_sizes (k : Kind) (hk : k.chargeable = true) (v : Val) (hv : wt env k.desc v = true) :
+    sizeS env k.desc ((vmMask k).apply v) = sizeS env k.desc v ∧ sizeD env k.desc ((vmMask k).apply v) = sizeD env k.desc v ∧
+    size env k.desc ((vmMask k).apply v) = size env k.desc v :=
+  prepare_sign_preserves_size k hk v hv
+
+/-- … of every input and output, and it keeps the predicate offset and length of every input -/
+theorem prepare_sign_preserves_element_sizes (i o : Val) (hi : wt env TxDesc.input i = true) (ho : wt env TxDesc.output o = true) :
+    Tx.inputSize (inputMask.apply i) = Tx.inputSize i ∧ predicateOffset (inputMask.apply i) = predicateOffset i ∧
+    predicateLen (inputMask.apply i) = predicateLen i ∧ Tx.outputSize (outputMask.apply o) = Tx.outputSize o :=
+  ⟨inputSize_apply i hi, predicateOffset_apply i, predicateLen_apply i, outputSize_apply o ho⟩
+
+/-- **every offset of the prepared transaction is the offset of the original one** (both without a cache) -/
+theorem prepared_offsets_eq_original (k : Kind) (hk : k.chargeable = true) (v : Val) (hv : wt env k.desc v = true) :
+    let tO : Tx := { kind := k, val := v, metadata := none }
+    let tP : Tx := { kind := k, val := (vmMask k).apply v, metadata := none }
+    (k = .script → tP.scriptDataOffset = tO.scriptDataOffset) ∧ tP.bodyOffsetEnd = tO.bodyOffsetEnd ∧
+    (k = .create → ∀ i, tP.storageSlotsOffsetAt i = tO.storageSlotsOffsetAt i) ∧
+    (k = .upload → ∀ i, tP.proofSetOffsetAt i = tO.proofSetOffsetAt i) ∧
+    tP.inputsOffset = tO.inputsOffset ∧ tP.outputsOffset = tO.outputsOffset ∧ tP.witnessesOffset = tO.witnessesOffset ∧
+    (∀ i, tP.inputsOffsetAt i = tO.inputsOffsetAt i) ∧ (∀ i, tP.outputsOffsetAt i = tO.outputsOffsetAt i) ∧
+    (∀ i, tP.witnessesOffsetAt i = tO.witnessesOffsetAt i) ∧ (∀ i, tP.inputsPredicateOffsetAt i = tO.inputsPredicateOffsetAt i) :=
+  prepared_offsets_eq k hk v hv
+
+/-- **the object the real VM holds answers like the model's**: a transaction that went through `precompute` (cache computed
+from the unprepared value, whatever cache `m0` it carried before) and then through `init_inner`'s `prepare_sign` (value
+prepared, cache left alone) gives, for every offset accessor `get_transaction_field` uses, the answer of the prepared value
+without a cache — the transaction of `Model/Gtf.lean`. This discharges the former assumption "prepare_sign does not change
+sizes" (C04 `cached_offsets_eq_uncached` + `prepared_offsets_eq_original`). -/
+theorem vm_object_offsets_eq_model (idOf : Tx → Bytes) (k : Kind) (hk : k.chargeable = true) (v : Val) (hv : wt env k.desc v = true)
+    (m0 : Option Metadata) (t' : Tx) (h : Tx.precompute idOf { kind := k, val := v, metadata := m0 } = .ok t') :
+    let tReal : Tx := { t' with val := (vmMask k).apply t'.val }
+    let tModel : Tx := { kind := k, val := (vmMask k).apply v, metadata := none }
+    tReal.kind = tModel.kind ∧ tReal.val = tModel.val ∧ tReal.metadata.isSome = true ∧
+    (k = .script → tReal.scriptDataOffset = tModel.scriptDataOffset) ∧ tReal.bodyOffsetEnd = tModel.bodyOffsetEnd ∧
+    (∀ i, tReal.storageSlotsOffsetAt i = tModel.storageSlotsOffsetAt i) ∧ (∀ i, tReal.proofSetOffsetAt i = tModel.proofSetOffsetAt i) ∧
+    tReal.inputsOffset = tModel.inputsOffset ∧ tReal.outputsOffset = tModel.outputsOffset ∧ tReal.witnessesOffset = tModel.witnessesOffset ∧
+    (∀ i, tReal.inputsOffsetAt i = tModel.inputsOffsetAt i) ∧ (∀ i, tReal.outputsOffsetAt i = tModel.outputsOffsetAt i) ∧
+    (∀ i, tReal.witnessesOffsetAt i = tModel.witnessesOffsetAt i) ∧
+    (∀ i, tReal.inputsPredicateOffsetAt i = tModel.inputsPredicateOffsetAt i) :=
+  real_vm_tx_offsets_eq_model idOf k hk v hv m0 t' h
 
 /-! ### GTF: dispatch -/
 
@@ -168,6 +228,10 @@ def exTx : Val :=
 def exVm : Except InitError Vm := initVm .script exTx 2 7 13 (.predicate 0) (List.replicate 32 0xAA) (List.replicate 32 0xBB) (zeros 80)
 
 example : wt env Kind.script.desc exTx = true := by decide +kernel
+/-- the preparation does change this transaction (tx pointers, predicate gas, the contract input's utxo id / roots, the
+contract output's roots, the receipts root are non-zero in `exTx`) and keeps its size (568 bytes) -/
+example : ((vmMask .script).apply exTx != exTx) = true ∧ size env Kind.script.desc ((vmMask .script).apply exTx) = size env Kind.script.desc exTx := by
+  decide +kernel
 /-- InputCoinOwner (0x203), InputCoinPredicate (0x20B), InputCoinAmount, InputContractId on a coin input (absent), index past the end,
 TxLength, an unknown immediate; the owner of input 0 is read back from memory at the returned pointer -/
 def showRes : Except Panic Nat → String
